@@ -4,12 +4,19 @@ CFG = {
     "claim": "Proof + exhaustive tie: every integer conversion of color/formats.rs (UNORM 1..16 -> 8/16, SNORM 8/16, "
              "XR bias, 10/11-bit float denormals) equals the nearest code of the rational ideal on its whole input "
              "domain (ties characterised: none for UNORM, SNORM 0 and odd XR steps go up); UNORM/SNORM/XR/half/11/10-bit/"
-             "shared-exponent -> f32 equal the correctly rounded binary32 of the ideal; the pinned 45-format field table is "
+             "shared-exponent -> f32 equal the correctly rounded binary32 of the ideal, including the 16-bit domains "
+             "(n16::f32, s16::uf32, fp16::f32: all 65536 inputs kernel-evaluated); every half -> nearest U8 code, every "
+             "half -> nearest U16 code except exactly 0x3801..0x3804, which are proved to come out one code high and "
+             "inside the tie tolerance (F14b), likewise R9G9B9E5 (15,257); the pinned 45-format field table is "
              "well formed; sub-sampled and bi-planar decoding pairs every pixel with the chroma sample of its own cell for "
              "all widths/heights. The model (software binary32, bit-exact) is tied to dds::decode by a differential run "
              "that is exhaustive for <=16-bit pixels and per field for wider ones.",
     "note": "Trusted: Lean kernel + propext/Classical.choice/Quot.sound; the hand-written models ConvF32/Conv/"
             "Uncompressed.lean and specification ConvSpec.lean; the correspondence check (harness, driver, diff); "
+            "the 65536-point evaluations of the 16-bit->f32 and half conversions run inside the kernel on an integer "
+            "representation of the software float (Proofs/ConvFast*.lean) that is proved equal to the model for all "
+            "arguments, so it adds nothing to the trusted base; not proved in Lean: fp::n8/n16 (2^32 inputs) and YUV "
+            "(sampled tie only); "
             "IEEE-754 +,-,*,/ being correctly rounded and evaluated operator by operator in binary32 by rustc/x86-64.",
     "profiles": ["release", "checked"],
     "level": "proof",
